@@ -31,6 +31,7 @@ class ObjWorld:
                     self.consts.setdefault(k, c)
         self.instances: Dict[str, Sym] = {}
         self.real_classes: set = set(real_classes)
+        self.real_bases: set = set()  # every class deriving from one of these is built from its own definition
         self.me = MiniEval(self.oracle(), where, permissive=True, resolver=self.resolver)
         self.setup(self.me)
 
@@ -109,6 +110,10 @@ class ObjWorld:
                     return self.consts[e.id]
                 if (e.id.endswith("TypeSpec") or e.id in self.real_classes) and self.model.try_class(e.id) is not None:
                     return self.class_sym(e.id)
+                if self.real_bases:
+                    c0 = self.model.try_class(e.id)
+                    if c0 is not None and any(k.name in self.real_bases for k in self.model.mro(c0)):
+                        return self.class_sym(e.id)
                 c = self.model.try_class(e.id)
                 if c is not None and any(b.split(".")[-1] in ("Enum", "IntEnum", "Flag", "IntFlag") for b in c.base_exprs):
                     if e.id not in self.class_syms:
